@@ -493,6 +493,13 @@ class RuleGen:
                 x = self.item_for(idx, allow_times=False)[0]     # the argument matches here: the $not must reject
             elif self.icaps and rng.random() < 0.4:
                 x = rng.choice(self.icaps)[0]                     # an instruction capture bound earlier as the argument
+            if (f.ocaps or f.icaps) and rng.random() < 0.15:
+                # a capture name that lives only inside this $not (first and every other occurrence): it stands for any operand
+                # there, twice for two equal operands; captures defined after the $not are unaffected by it
+                self._inner_names = getattr(self, "_inner_names", 0) + 1
+                nm = f"&inner{self._inner_names}"
+                mn = self.fields[idx][1] if rng.random() < 0.6 else rng.choice(ALL_MNEMONICS)
+                x = {mn: [nm] if rng.random() < 0.5 else [nm, nm]}
             r3 = rng.random()
             if r3 < 0.3:
                 x = {"$and": [x, self.decoy_item()]}
